@@ -40,12 +40,41 @@ def load(prop):
     return importlib.import_module("vlib.props." + prop.lower())
 
 
+def process_wide_state_sites():
+    """Source lines of /repo that declare process-wide mutable state (reported in the evidence: phases of one scenario share a process)."""
+    import re
+    pat = re.compile(r"^\s*(pub(\([a-z]+\))?\s+)?static\s+(mut\s+)?[A-Za-z_][A-Za-z0-9_]*\s*:|thread_local!|lazy_static!|\bOnceLock\b|\bOnceCell\b|\bLazyLock\b|\bLazy<")
+    out = []
+    for crate in ("acmed", "acme_common", "tacd"):
+        root = os.path.join(build.REPO, crate, "src")
+        for d, _, files in os.walk(root):
+            for f in files:
+                if f.endswith(".rs"):
+                    path = os.path.join(d, f)
+                    try:
+                        for n, line in enumerate(open(path, encoding="utf-8", errors="replace"), 1):
+                            if pat.search(line) and not line.lstrip().startswith("//") and "breard_r_acmed_verif" not in line:
+                                out.append("%s:%d" % (os.path.relpath(path, build.REPO), n))
+                    except OSError:
+                        pass
+    return out
+
+
 def run_check(prop, tier):
     ctx = Ctx(prop, tier)
     try:
         mod = load(prop)
         build.ensure(getattr(mod, "NEEDS", ("dev",)))
         res = mod.run(ctx)
+        if prop not in ("C16", "C17"):
+            sites = process_wide_state_sites()
+            res.extra["process_wide_state_sites"] = sites
+            if sites:
+                print("NOTE: the tree declares process-wide mutable state (%s%s): scenarios are isolated per process, phases (restarts) of one scenario are not"
+                      % (", ".join(sites[:3]), ", ..." if len(sites) > 3 else ""))
+            res.assumptions = list(res.assumptions) + [
+                "process isolation: every scenario / scheduled run executes in a freshly spawned probe process (nothing static survives from one scenario to the next); "
+                "the phases of one scenario (daemon restarts) share that process - the pinned tree has no process-wide mutable state and no harness step edits a stored file between phases"]
         return report.finish(ctx, res)
     except report.MachineryError as e:
         print("MACHINERY-ERROR: %s" % e)
